@@ -9,7 +9,16 @@
                       | iter B (whole FOREACH_BITMAP_BIT) | iinit B | inext   (ids may coincide: aliasing)
      per op: return token, then all bitmaps as hex words without trailing zero words joined by '.',
      bitmaps separated by '/', then '#'-token = VARR_LENGTH of each bitmap (representation, not contents)
-   Tokens starting with '#' or 'r' are bookkeeping (capacity / representation), all others are the
+   htab <min_size> <hash of key 0> <hash of key 1> ... : find K | ins K V | rep K V | del K | clear | num | each | coll
+     elements are numbers K*1000+V, eq = same key, hash = the table in the header (forced 0 / collisions)
+     per op: 'f<found>' 'e<*res or ->' (do) | '-' | 'n<els_num>' | 'l<elements in foreach order>' | '#c<collisions>';
+     then 'F<sorted elements free_func was called on by this op>' '#F<same in call order>', then the dump
+     's<sorted live elements>' 'n<els_num>' and bookkeeping '#o<foreach order>' '#c<collisions>' '#b<els_bound>'
+     '#z<size>' '#E<entries: . empty, x deleted, index>'; at the end HTAB_DESTROY: 'D<sorted freed>' '#D<in order>'
+   dlist <nodes> : pre E | app E | insb B E | insa A E | rem E | el N | len | head | tail | next E | prev E
+     per op: '-' | 'e<node or ->' | 'n<length>', then '><forward walk>' '<<backward walk>'; an op whose
+     precondition fails (inserting a member, removing / anchoring on a non-member) prints REJECT and ends
+   Tokens starting with '#' are bookkeeping (capacity / representation), all others are the
    observables the property talks about.
    Output tokens per op: '-' (no value) 'v<int>' 'n<uint>' 'b<0|1>' ('#c<uint>' for cap) followed by
    '#r<old>,<new>' for each realloc the op issued (sizes in elements); then '| <live elements>'. */
@@ -20,6 +29,8 @@
 #include "mir-alloc.h"
 #include "mir-varr.h"
 #include "mir-bitmap.h"
+#include "mir-htab.h"
+#include "mir-dlist.h"
 
 typedef long elt;
 DEF_VARR (elt);
@@ -195,6 +206,190 @@ static void run_bitmap (char *args, char *ops) {
   for (int k = 0; k < n; k++) bitmap_destroy (bm[k]);
 }
 
+/* ---------------------------------------------------------------- hash tables */
+typedef long hel;
+DEF_HTAB (hel);
+#define MAXKEYS 64
+static unsigned h_table[MAXKEYS];
+static int h_nkeys;
+static long h_freed[4096];
+static int h_nfreed;
+static htab_hash_t hel_hash (hel e, void *arg) {
+  long k = e / 1000;
+  return k >= 0 && k < h_nkeys ? h_table[k] : 0;
+}
+static int hel_eq (hel a, hel b, void *arg) { return a / 1000 == b / 1000; }
+static void hel_free (hel e, void *arg) {
+  if (h_nfreed < 4096) h_freed[h_nfreed++] = e;
+}
+static int cmp_long (const void *a, const void *b) {
+  long x = *(const long *) a, y = *(const long *) b;
+  return x < y ? -1 : x > y;
+}
+static void print_list (const char *tag, long *v, int n, int sorted) {
+  static long t[4096];
+  memcpy (t, v, n * sizeof (long));
+  if (sorted) qsort (t, n, sizeof (long), cmp_long);
+  printf (" %s", tag);
+  if (n == 0) printf ("-");
+  for (int i = 0; i < n; i++) printf ("%s%ld", i ? "," : "", t[i]);
+}
+static long h_each[4096];
+static int h_neach;
+static void hel_collect (hel e, void *arg) {
+  if (h_neach < 4096) h_each[h_neach++] = e;
+}
+static void dump_htab (HTAB (hel) * ht) {
+  h_neach = 0;
+  HTAB_FOREACH_ELEM (hel, ht, hel_collect, NULL);
+  print_list ("s", h_each, h_neach, 1);
+  printf (" n%u", HTAB_ELS_NUM (hel, ht));
+  print_list ("#o", h_each, h_neach, 0);
+  printf (" #c%u #b%u #z%zu #E", HTAB_COLLISIONS (hel, ht), ht->els_bound, VARR_LENGTH (htab_ind_t, ht->entries));
+  size_t size = VARR_LENGTH (htab_ind_t, ht->entries);
+  htab_ind_t *a = VARR_ADDR (htab_ind_t, ht->entries);
+  for (size_t i = 0; i < size; i++) {
+    if (i) printf (",");
+    if (a[i] == HTAB_EMPTY_IND) printf (".");
+    else if (a[i] == HTAB_DELETED_IND) printf ("x");
+    else printf ("%u", a[i]);
+  }
+}
+
+static void run_htab (char *args, char *ops) {
+  HTAB (hel) * ht;
+  char *e;
+  unsigned long min_size = strtoul (args, &e, 10);
+  h_nkeys = 0;
+  for (;;) {
+    char *e2;
+    unsigned long h = strtoul (e, &e2, 10);
+    if (e2 == e) break;
+    if (h_nkeys < MAXKEYS) h_table[h_nkeys++] = (unsigned) h;
+    e = e2;
+  }
+  HTAB_CREATE_WITH_FREE_FUNC (hel, ht, &h_alloc, (htab_size_t) min_size, hel_hash, hel_eq, hel_free, NULL);
+  char *save, *op;
+  for (op = strtok_r (ops, ";", &save); op != NULL; op = strtok_r (NULL, ";", &save)) {
+    char name[32];
+    long k = 0, v = 0;
+    int na = sscanf (op, " %31s %ld %ld", name, &k, &v);
+    if (na < 1) continue;
+    h_nfreed = 0;
+    int act = -1;
+    if (!strcmp (name, "find")) act = HTAB_FIND;
+    else if (!strcmp (name, "ins")) act = HTAB_INSERT;
+    else if (!strcmp (name, "rep")) act = HTAB_REPLACE;
+    else if (!strcmp (name, "del")) act = HTAB_DELETE;
+    if (act >= 0) {
+      if (k < 0 || k >= h_nkeys || v < 0 || v > 999) {
+        printf (" REJECT");
+        break;
+      }
+      hel res = -1;
+      int found = HTAB_DO (hel, ht, k * 1000 + v, act, res);
+      printf (" f%d", found);
+      if (res == -1) printf (" e-"); else printf (" e%ld", res);
+    } else if (!strcmp (name, "clear")) {
+      HTAB_CLEAR (hel, ht);
+      printf (" -");
+    } else if (!strcmp (name, "num")) {
+      printf (" n%u", HTAB_ELS_NUM (hel, ht));
+    } else if (!strcmp (name, "each")) {
+      h_neach = 0;
+      HTAB_FOREACH_ELEM (hel, ht, hel_collect, NULL);
+      print_list ("l", h_each, h_neach, 0);
+    } else if (!strcmp (name, "coll")) {
+      printf (" #c%u", HTAB_COLLISIONS (hel, ht));
+    } else {
+      printf (" ?%s", name);
+      continue;
+    }
+    print_list ("F", h_freed, h_nfreed, 1);
+    print_list ("#F", h_freed, h_nfreed, 0);
+    dump_htab (ht);
+  }
+  h_nfreed = 0;
+  HTAB_DESTROY (hel, ht);
+  print_list ("D", h_freed, h_nfreed, 1);
+  print_list ("#D", h_freed, h_nfreed, 0);
+  printf ("\n");
+}
+
+/* ---------------------------------------------------------------- doubly linked lists */
+typedef struct dnode *dnode_t;
+DEF_DLIST_LINK (dnode_t);
+struct dnode {
+  long id;
+  DLIST_LINK (dnode_t) link;
+};
+DEF_DLIST (dnode_t, link);
+#define MAXNODES 64
+static void pr_node (const char *tag, dnode_t e) {
+  if (e == NULL) printf (" %s-", tag); else printf (" %s%ld", tag, e->id);
+}
+static void run_dlist (char *args, char *ops) {
+  static struct dnode nodes[MAXNODES];
+  int in[MAXNODES];
+  long n = strtol (args, NULL, 10);
+  if (n > MAXNODES) n = MAXNODES;
+  memset (nodes, 0, sizeof (nodes));
+  for (int i = 0; i < MAXNODES; i++) { nodes[i].id = i; in[i] = 0; }
+  DLIST (dnode_t) list;
+  DLIST_INIT (dnode_t, list);
+  char *save, *op;
+  for (op = strtok_r (ops, ";", &save); op != NULL; op = strtok_r (NULL, ";", &save)) {
+    char name[32];
+    long a = 0, b = 0;
+    int na = sscanf (op, " %31s %ld %ld", name, &a, &b);
+    if (na < 1) continue;
+#define NODE_OK(x) ((x) >= 0 && (x) < n)
+    if (!strcmp (name, "pre") || !strcmp (name, "app")) {
+      if (!NODE_OK (a) || in[a]) { printf (" REJECT"); break; }
+      if (name[0] == 'p') DLIST_PREPEND (dnode_t, list, &nodes[a]); else DLIST_APPEND (dnode_t, list, &nodes[a]);
+      in[a] = 1;
+      printf (" -");
+    } else if (!strcmp (name, "insb") || !strcmp (name, "insa")) {
+      if (!NODE_OK (b) || in[b] || !NODE_OK (a) || !in[a]) { printf (" REJECT"); break; }
+      if (name[3] == 'b') DLIST_INSERT_BEFORE (dnode_t, list, &nodes[a], &nodes[b]);
+      else DLIST_INSERT_AFTER (dnode_t, list, &nodes[a], &nodes[b]);
+      in[b] = 1;
+      printf (" -");
+    } else if (!strcmp (name, "rem")) {
+      if (!NODE_OK (a) || !in[a]) { printf (" REJECT"); break; }
+      DLIST_REMOVE (dnode_t, list, &nodes[a]);
+      in[a] = 0;
+      printf (" -");
+    } else if (!strcmp (name, "el")) {
+      pr_node ("e", DLIST_EL (dnode_t, list, (int) a));
+    } else if (!strcmp (name, "len")) {
+      printf (" n%zu", DLIST_LENGTH (dnode_t, list));
+    } else if (!strcmp (name, "head")) {
+      pr_node ("e", DLIST_HEAD (dnode_t, list));
+    } else if (!strcmp (name, "tail")) {
+      pr_node ("e", DLIST_TAIL (dnode_t, list));
+    } else if (!strcmp (name, "next") || !strcmp (name, "prev")) {
+      if (!NODE_OK (a) || !in[a]) { printf (" REJECT"); break; }
+      pr_node ("e", name[0] == 'n' ? DLIST_NEXT (dnode_t, &nodes[a]) : DLIST_PREV (dnode_t, &nodes[a]));
+    } else {
+      printf (" ?%s", name);
+      continue;
+    }
+    /* dump: forward and backward walks (bounded: a corrupted list must not hang the harness) */
+    int cnt = 0;
+    printf (" >");
+    for (dnode_t e = DLIST_HEAD (dnode_t, list); e != NULL && cnt <= MAXNODES; e = DLIST_NEXT (dnode_t, e), cnt++)
+      printf ("%s%ld", cnt ? "," : "", e->id);
+    if (cnt == 0) printf ("-");
+    cnt = 0;
+    printf (" <");
+    for (dnode_t e = DLIST_TAIL (dnode_t, list); e != NULL && cnt <= MAXNODES; e = DLIST_PREV (dnode_t, e), cnt++)
+      printf ("%s%ld", cnt ? "," : "", e->id);
+    if (cnt == 0) printf ("-");
+  }
+  printf ("\n");
+}
+
 int main (void) {
   static char line[1 << 20];
   while (fgets (line, sizeof (line), stdin)) {
@@ -208,6 +403,10 @@ int main (void) {
       run_varr (line + off, colon + 1);
     else if (!strcmp (kind, "bitmap"))
       run_bitmap (line + off, colon + 1);
+    else if (!strcmp (kind, "htab"))
+      run_htab (line + off, colon + 1);
+    else if (!strcmp (kind, "dlist"))
+      run_dlist (line + off, colon + 1);
     else
       printf ("?kind %s\n", kind);
   }
